@@ -5,4 +5,5 @@ import FsVerif.Model.BufStore
 import FsVerif.Model.PrioReq
 import FsVerif.Model.Node.Source
 import FsVerif.Model.Node.Machine
+import FsVerif.Model.Node.Pack
 import FsVerif.Model.Config
